@@ -11,7 +11,7 @@ namespace SlipVerif.Json
 open J
 
 inductive PErr where
-  | fuel        -- ran out of fuel (never for fuel = input length + 1; see Theorems/C18)
+  | fuel        -- ran out of fuel (never on a text the writer produced: Theorems/C18 write_parse_roundtrip)
   | eof
   | badChar
   | badEscape
@@ -102,36 +102,42 @@ def unesc (e : Char) : Option Char :=
   else if e == 'f' then some (Char.ofNat 12)
   else none
 
-/-- the characters of a string body up to the closing quote (the opening quote is consumed) -/
-def readStr : List Char → Except PErr (List Char × List Char)
-  | [] => .error .eof
-  | c :: rest =>
+/-- reader state inside a string body: plain, after a backslash, inside `\uXXXX` with `k` digits
+    read and their value so far -/
+inductive SState where
+  | norm
+  | esc
+  | hex (k : Nat) (acc : Nat)
+
+def consChar (c : Char) (r : Except PErr (List Char × List Char)) : Except PErr (List Char × List Char) :=
+  match r with
+  | .ok (s, rest) => .ok (c :: s, rest)
+  | .error e => .error e
+
+/-- one character at a time: the characters of a string body up to the closing quote (the
+    opening quote is consumed), and what follows the closing quote -/
+def readStrS : SState → List Char → Except PErr (List Char × List Char)
+  | _, [] => .error .eof
+  | .norm, c :: rest =>
     if c == '"' then .ok ([], rest)
-    else if c == '\\' then
-      match rest with
-      | [] => .error .eof
-      | e :: rest2 =>
-        if e == 'u' then
-          match rest2 with
-          | a :: b :: c2 :: d :: rest3 =>
-            match hexVal a, hexVal b, hexVal c2, hexVal d with
-            | some x, some y, some z, some w =>
-              let n := x * 4096 + y * 256 + z * 16 + w
-              if n < 0xd800 ∨ (0xdfff < n) then do
-                let (s, r) ← readStr rest3
-                .ok (Char.ofNat n :: s, r)
-              else .error .badEscape
-            | _, _, _, _ => .error .badEscape
-          | _ => .error .eof
-        else
-          match unesc e with
-          | some ch => do
-              let (s, r) ← readStr rest2
-              .ok (ch :: s, r)
-          | none => .error .badEscape
-    else do
-      let (s, r) ← readStr rest
-      .ok (c :: s, r)
+    else if c == '\\' then readStrS .esc rest
+    else consChar c (readStrS .norm rest)
+  | .esc, e :: rest =>
+    if e == 'u' then readStrS (.hex 0 0) rest
+    else match unesc e with
+      | some ch => consChar ch (readStrS .norm rest)
+      | none => .error .badEscape
+  | .hex k acc, h :: rest =>
+    match hexVal h with
+    | none => .error .badEscape
+    | some x =>
+      let n := acc * 16 + x
+      if k = 3 then
+        (if n < 0xd800 ∨ 0xdfff < n then consChar (Char.ofNat n) (readStrS .norm rest)
+         else .error .badEscape)
+      else readStrS (.hex (k + 1) n) rest
+
+def readStr (cs : List Char) : Except PErr (List Char × List Char) := readStrS .norm cs
 
 /-! ### writer -/
 
